@@ -244,7 +244,7 @@ class C29(dst.Check):
         'small ones element by element.',
         'Values are periodic in the element index (period 2*{251,509,1021}): an algorithm error that displaces data by '
         'a multiple of the period would be missed.',
-        'A run killed by the wall-clock budget (60 s) is classified hang; simulated deadlock reports are hang too.',
+        'A run killed by the wall-clock budget (20 s) is classified hang; simulated deadlock reports are hang too.',
         'An abort whose message names a requirement (invalid_argument "can\'t be used ...", power of two, ...) and a '
         'non-MPI_SUCCESS return code seen by every rank are "refused", not violations.',
         'Receive buffers of non-root ranks (reduce, gather(v)) are valid canary buffers and must stay untouched; exscan '
@@ -344,7 +344,7 @@ class C29(dst.Check):
         sd = '%s/c29' % scratch
         try:
             rc, out, err, to = mc.run_smpi(sd, plan['np'], plan['plat'], plan['hosts'], plan['cfg'],
-                                           mc.coll_plan_text(plan), timeout=60)
+                                           mc.coll_plan_text(plan), timeout=20)
         finally:
             mc.cleanup(sd)
         R, T, D, last = {}, {}, set(), {}
